@@ -220,6 +220,12 @@ func (fx *Fx) execSend(st *State, x *ast.SendStmt) []Outcome {
 		cell := fx.chanCell(st, c.X)
 		st.assume(not(app("ch_closed", cell)))
 	}
+	if !fx.selectComm {
+		// a plain send on a buffered channel that is full blocks this goroutine until somebody receives: the reply
+		// channels of the library are buffered precisely so that the sender never waits
+		cell := fx.chanCell(st, c.X)
+		fx.oblige(st, "chan", "room("+exprText(x.Chan)+")", or(app("=", app("ch_cap", cell), "0"), app("<", app("ch_buffered", cell), app("ch_cap", cell))), "a plain send on a full buffered channel blocks the sender")
+	}
 	fx.chanSend(st, c, v, exprText(x.Chan))
 	fx.traceChanOp(st, "chansend", c)
 	return normal(st)
@@ -309,7 +315,9 @@ func (fx *Fx) execSelect(st *State, x *ast.SelectStmt) []Outcome {
 		br.ghost["selcase"] = Val{S: SInt, X: fmt.Sprint(selIdx(x, cl))}
 		cur := []Outcome{{st: br, kind: kNormal}}
 		if cc.Comm != nil {
+			fx.selectComm = true
 			cur = fx.exec(br, cc.Comm)
+			fx.selectComm = false
 		}
 		for _, o := range cur {
 			if o.kind != kNormal {
